@@ -168,6 +168,20 @@ def c05(work, tier, seed):
                 mt = ["RDG_OUT_DATA", "RDG_IN_DATA", "GET"][stable_hash(az + str(pr) + str(ms) + str(seed)) % 3] if tier == "quick" else None
                 for m2 in ([mt] if mt else ["RDG_OUT_DATA", "RDG_IN_DATA", "GET"]):
                     scripts.append({"id": "h%05d" % len(scripts), "cfg": cfg, "method": m2, "authz": az, "prior": pr})
+    # a tunnel opened with confirmed credentials, then requests of other users / without or with wrong credentials, then
+    # the tunnel's own packets: the tunnel still acts for the user it was opened as
+    for ms in msets:
+        if ms == ("openid",):
+            continue
+        cfg = {"tokenAuth": "openid" in ms, "smartCard": False, "auths": list(ms), "auth": "", "sel": "roundrobin", "hosts": [["H1", ":", "PA"]], "verifyIp": True, "idle": 0,
+               "tls": "local" in ms}
+        for scheme in [x for x in ("local", "ntlm") if x in ms]:
+            others = {"local": ["basic-right-8", "basic-wrongpw", "absent", "basic-unknown"], "ntlm": ["ntlm-wrongpw", "absent", "ntlm-unknown", "ntlm-garbage"]}[scheme]
+            for tr in ("legacy", "ws"):
+                for k in range(2 if tier == "quick" else 6):
+                    n = [1, 3, 6, 2, 4, 8][k]
+                    interf = [{"method": ["GET", "RDG_OUT_DATA", "RDG_IN_DATA"][(j + k) % 3], "authz": others[(j + k) % len(others)]} for j in range(n)]
+                    scripts.append({"id": "h%05d" % len(scripts), "cfg": cfg, "kind": "tunuser", "transport": tr, "scheme": scheme, "interf": interf, "method": "", "authz": ""})
     out, rep, res = fa.generic("C05", work, tier, seed, "front", "FrontTrace", scripts, design,
                                lambda v: "%s/%s/%s" % (v["guard"], v["a"], v["b"]),
                                "Front.tla: ShouldReach / Challenges over every startable mechanism set x request class (design). Conformance: the real binary (TLS where local auth needs it) with the real rdpgw-auth (stub PAM, NTLM "
